@@ -3,6 +3,7 @@ import MindsVerif.Lemmas.Encode
 import MindsVerif.Lemmas.Ident
 import MindsVerif.Lemmas.Codec
 import MindsVerif.Lemmas.IdentBq
+import MindsVerif.Lemmas.Variable
 import MindsVerif.Model.LexTab
 import MindsVerif.Gen.Lex_sqlite
 import MindsVerif.Gen.Lex_mysql
@@ -314,6 +315,39 @@ theorem C04_identifier_bq_sqlite (parts : List (List Char)) (hne : parts ≠ [])
 example : LexBq.partsToStr reservedL [['a', '`', 'b']] = ['`', 'a', '`', '`', 'b', '`'] ∧
     LexBq.lexIdentPath K_mindsdb (LexBq.partsToStr reservedL [['a', '`', 'b'], ['`']]) = some [['a', '`', 'b'], ['`']] ∧
     LexBq.lexIdentPath K_mindsdb (LexBq.partsToStr reservedL [[]]) = none := by decide +kernel
+
+/-! ## variables: the name codec (`Variable.get_string` ∘ VARIABLE / SYSTEM_VARIABLE rules + decoding) -/
+
+/-- full statement: every variable name placed in a tree prints to text that is read back as that variable -/
+def C04_full_variable : Prop :=
+  ∀ (sys : Bool) (v : List Char), lexVariable (variableToString sys v) = some (sys, v, [])
+
+/-- **variable codec, all denotable names.** `VarOK v` = the names some source text denotes (what the lexers can
+produce): first character in the lexers' class `[a-zA-Z_.$]`, and bare-printable or free of one of the three quote
+characters.  For every such name, user or system variable, followed by anything that is not a name character:
+print, then lex + decode, returns the flag and the name.  (Printer: bare iff the name fully matches `[a-zA-Z_.$]+`
+— no digits, exactly the class of the bare token rule — else quoted with a quote that does not occur in it.) -/
+theorem C04_variable (sys : Bool) (v rest : List Char) (hv : VarCodec.VarOK v = true)
+    (hr : ∀ y t, rest = y :: t → isVarChar y = false) :
+    lexVariable (variableToString sys v ++ rest) = some (sys, v, rest) :=
+  VarCodec.roundtrip sys v rest hv hr
+
+/-- names with a digit are printed quoted and read back (`var1`, `utf8mb4`); names outside `VarOK` (digit first,
+empty) have no source form at all: the lexers reject ``@`1a` `` -/
+theorem C04_witness_variable :
+    variableToString false ['v', 'a', 'r', '1'] = ['@', '`', 'v', 'a', 'r', '1', '`'] ∧
+    lexVariable (variableToString true ['u', 't', 'f', '8', 'm', 'b', '4']) = some (true, ['u', 't', 'f', '8', 'm', 'b', '4'], []) ∧
+    lexVariable ['@', 'v', 'a', 'r', '1'] = some (false, ['v', 'a', 'r'], ['1']) ∧
+    ¬ C04_full_variable := by
+  refine ⟨by decide, by decide, by decide, ?_⟩
+  intro h
+  have := h false ['1', 'a']
+  revert this; decide
+
+example : VarCodec.VarOK ['v', 'a', 'r', '1'] = true ∧ VarCodec.VarOK ['a', ' ', '`', '"'] = true ∧
+    VarCodec.VarOK ['1', 'a'] = false := by decide
+example : Lex_mindsdb.SYSTEM_VARIABLE = "(@@[a-zA-Z_.$]+)|(@@'[a-zA-Z_.$][^']*')|(@@`[a-zA-Z_.$][^`]*`)|(@@\"[a-zA-Z_.$][^\"]*\")" ∧
+    Lex_mysql.SYSTEM_VARIABLE = Lex_mindsdb.SYSTEM_VARIABLE := by decide
 
 /-! ## regression examples: the defects of the old codec (all fixed), and the one open class (KF-C04-7) -/
 
